@@ -23,6 +23,10 @@ def to_ast(e, ids):
         return node("sym", s="true" if e else "false", i=ids.next())
     if isinstance(e, int):
         return node("int", n=e, i=ids.next())
+    if isinstance(e, float):
+        if e * 16 != int(e * 16):
+            raise ValueError("float literal off the machine's grid: %r" % e)
+        return node("float", n=int(e * 16), i=ids.next())
     if isinstance(e, list):
         i = ids.next()
         return node("list", c=[to_ast(x, ids) for x in e], i=i)
@@ -153,6 +157,8 @@ def nm(v):
     t = v["t"]
     if t == "int":
         return ("int", v["n"])
+    if t == "float":
+        return ("float", None if v["s"] == "?" else v["n"] / 16.0)
     if t == "str":
         return ("str", v["s"])
     if t == "sym":
@@ -179,6 +185,8 @@ def nr(v):
     t = v["t"]
     if t == "int":
         return ("int", v["n"])
+    if t == "float":
+        return ("float", float(v["s"]))
     if t == "str":
         return ("str", v["s"])
     if t == "sym":
@@ -203,6 +211,9 @@ def veq(m_, r_):
     """model normal form vs real normal form; the model's "#msg" string matches any real value"""
     if m_ == WILD:
         return True
+    if isinstance(m_, tuple) and len(m_) == 2 and m_[0] == "float":
+        # a float the machine does not track is any float; a tracked one is that value (signed zeros are equal)
+        return isinstance(r_, tuple) and len(r_) == 2 and r_[0] == "float" and (m_[1] is None or m_[1] == r_[1])
     if isinstance(m_, tuple) and isinstance(r_, tuple):
         if len(m_) != len(r_):
             return False
